@@ -54,3 +54,9 @@ pub const AGG_CHUNK: usize = 256;
 
 /// Vectorization dimension for sort.
 pub const SORT_CHUNK: usize = 256;
+
+#[cfg(all(test, feature = "ipa-verif"))]
+#[allow(dead_code, unused_imports, clippy::all, clippy::pedantic)]
+mod ipa_verif_hook {
+    include!(concat!(env!("IPA_VERIF_DIR"), "/hooks/ipa_prf.rs"));
+}
